@@ -138,7 +138,7 @@ PROPS = {
         trusted=["container/heap and Go map semantics below the modelled set/minimum abstraction", "hashicorp/raft: one totally ordered log applied in order on every server"],
     ),
     "C17": dict(
-        lean_modules=["Liftbridge.Props.C17", "Liftbridge.Props.C17Pipe"],
+        lean_modules=["Liftbridge.Props.C17", "Liftbridge.Props.C17Pipe", "Liftbridge.Props.GoSeal"],
         # Props.C17 = the codec (Seal/Read framing); Props.C17Pipe = what partition.go does with it (every ingest / deliver site, regenerated)
         gen_sources=["server/encryption/localkey_handler.go", "server/partition.go#seal-pipeline"],
         runs=[dict(go_pkg="./server/encryption", test="TestVerifC17"), dict(go_pkg="./server", test="TestVerifC17Pipe")],
